@@ -432,9 +432,26 @@ def emit_function(root, c, mode, extra_fmt_fns):
             elif where == 'atend':
                 edits.append((len(body) - 1, order, payload))
             else:
-                m = _find_anchor(body, anchor, occ, c.name)
-                p = m.end() if where == 'after' else m.start()
-                edits.append((p, order, '\n' + payload))
+                # an anchor may name fall-back positions: `@before A ||| after B ||| before#2 C` -- the first one that exists is used
+                # (a change of statement A then does not lose the hint, and the obligations around it are still checked)
+                alts = [(where, occ, anchor.split('|||')[0].strip())]
+                for alt in anchor.split('|||')[1:]:
+                    mm = re.match(r'^\s*(before|after)(#\d+)?\s+(.*)$', alt.strip(), re.S)
+                    if not mm:
+                        raise ExtractError(f'contract {c.name}: bad alternative anchor `{alt.strip()}`')
+                    alts.append((mm.group(1), int(mm.group(2)[1:]) if mm.group(2) else 1, mm.group(3).strip()))
+                last_err = None
+                for w2, o2, a2 in alts:
+                    try:
+                        m = _find_anchor(body, a2, o2, c.name)
+                    except ExtractError as e:
+                        last_err = e
+                        continue
+                    p = m.end() if w2 == 'after' else m.start()
+                    edits.append((p, order, '\n' + payload))
+                    break
+                else:
+                    raise last_err
         if c.loops:
             lp = _loop_positions(body)
             for n in sorted(c.loops):
